@@ -18,7 +18,8 @@ fn outcome_line<T: Flavor>(r: Result<GenericPurl<T>, T::Error>) -> String {
         Err(e) => format!("ERR {}", T::err_text(&e)),
         Ok(p) => {
             let o = observe(&p);
-            format!("OK {}|{:?}|{}|{:?}|{:?}|{:?}|{}", o.ty, o.ns, o.name, o.version, o.quals, o.subpath, p.to_string())
+            // (Display under formatter flags is observable behaviour too)
+            format!("OK {}|{:?}|{}|{:?}|{:?}|{:?}|{}|{:>24}|{:.9}|{:*^21}", o.ty, o.ns, o.name, o.version, o.quals, o.subpath, p.to_string(), p, p, p)
         },
     }
 }
